@@ -65,7 +65,7 @@ func NewSys(v Variant, gate bool, extra bool) *Sys {
 		ops = append(ops, "ProtoRej-lcp", "ProtoRej-other")
 	}
 	if v.Proto == "ipcp" {
-		ops = append(ops, "RCR-wrong")
+		ops = append(ops, "RCR-wrong", "RCR-dns0")
 	}
 	if extra {
 		ops = append(ops, "RCR-mix", "RCR-empty", "RCR-bad", "Short", "EchoReply", "Discard")
@@ -146,8 +146,8 @@ func hx(s string) []byte {
 func (in *inst) reqOpts(op string) []opt {
 	switch in.s.V.Proto {
 	case "lcp":
-		mru := opt{1, hx("05d4"), "good"}    // 1492
-		mruBig := opt{1, hx("07d0"), "bad"}  // 2000 > PPPoE limit
+		mru := opt{1, hx("05d4"), "good"}   // 1492
+		mruBig := opt{1, hx("07d0"), "bad"} // 2000 > PPPoE limit
 		magic := opt{5, hx("11223344"), "good"}
 		unk := opt{0x63, hx("abcd"), "bad"}
 		switch op {
@@ -175,6 +175,8 @@ func (in *inst) reqOpts(op string) []opt {
 			return []opt{ipA, comp}
 		case "RCR-wrong":
 			return []opt{ipB}
+		case "RCR-dns0": // the client asks to be told both DNS servers (none is configured here: the policy is the automaton's)
+			return []opt{ipA, {129, hx("00000000"), "any"}, {131, hx("00000000"), "any"}}
 		case "RCR-mix":
 			return []opt{ip0, comp, dns}
 		}
@@ -261,7 +263,7 @@ func (in *inst) nakOpts(rej bool) []byte {
 
 // peer identifiers are chosen relative to our current request identifier, a different one
 // per kind of request, so a reply that echoes the wrong request is visible.
-var peerIDOffset = map[string]int{"RCR+": 0x51, "RCR-nak": 0x52, "RCR-rej": 0x53, "RCR-wrong": 0x54, "RCR-mix": 0x55, "RCR-empty": 0x56,
+var peerIDOffset = map[string]int{"RCR+": 0x51, "RCR-nak": 0x52, "RCR-rej": 0x53, "RCR-wrong": 0x54, "RCR-dns0": 0x59, "RCR-mix": 0x55, "RCR-empty": 0x56,
 	"RCR-bad": 0x57, "RCR-rand": 0x58, "RTR": 0x61, "RTA": 0x62, "EchoReq": 0x71, "EchoReq-short": 0x72, "EchoReply": 0x73, "Discard": 0x74,
 	"Unknown": 0x75, "CodeRej-crit": 0x76, "CodeRej-other": 0x77, "ProtoRej-lcp": 0x78, "ProtoRej-other": 0x79}
 
@@ -277,7 +279,7 @@ func optsJSON(os []opt) []map[string]any {
 func (in *inst) build(op string, base int, ev core.Event) (raw []byte, code int, id int, opts []opt) {
 	idOf := func(off int) byte { return byte(base + off) }
 	switch op {
-	case "RCR+", "RCR-nak", "RCR-rej", "RCR-wrong", "RCR-mix", "RCR-empty":
+	case "RCR+", "RCR-nak", "RCR-rej", "RCR-wrong", "RCR-dns0", "RCR-mix", "RCR-empty":
 		opts = in.reqOpts(op)
 		i := idOf(peerIDOffset[op])
 		return packet(1, i, serOpts(opts)), 1, int(i), opts
